@@ -54,8 +54,8 @@ RULE = ('seeded sessions on all five curves sharing 1-2 simulated cache '
         'crashes with torn SL_/M0_ files, restarts and other worker counts')
 TIERS = {
     'quick': {'runs': 2400, 'budget_s': 170, 'max_ops': 9, 'wall_cap': 600,
-              'p_l2': 0.012},
-    'thorough': {'runs': 60000, 'budget_s': 2400, 'max_ops': 12, 'p_l2': 0.03,
+              'p_l2': 0.012, 'p_big': 0.006},
+    'thorough': {'runs': 60000, 'budget_s': 2400, 'max_ops': 12, 'p_l2': 0.03, 'p_big': 0.01,
                  'wall_cap': 900},
 }
 
